@@ -195,14 +195,14 @@ func run(t *testing.T, typ uint16) {
 		// very long fields: the authenticator input is type || nonce || context || key id as carried, whatever its length (a
 		// 16-bit length written somewhere inside an evaluation wraps at 65536 input bytes); with the honest authenticator
 		// (must be refused) and with the authenticator recomputed through circl (must be accepted)
-		if gen.Uniform(t, 2, "giantField") == 0 {
+		for which := 0; which < 3; which++ {
 			n := gen.Pick(t, []int{65437, 65438, 65439, 65470, 65535, 65536, 70000}, "giantLen")
 			giant := make([]byte, n)
 			for i := range giant {
 				giant[i] = byte(i*11 + n)
 			}
 			gt := tok
-			switch gen.Uniform(t, 3, "giantWhich") {
+			switch which {
 			case 0:
 				gt.Nonce = giant
 			case 1:
